@@ -34,10 +34,12 @@ from harness import fakehealpy
 fakehealpy.install()  # must precede the first import of yaw (HEALPY_ENABLED is decided at import)
 
 import copy  # noqa: E402
+import functools  # noqa: E402
 import json  # noqa: E402
 import math  # noqa: E402
 import os  # noqa: E402
 import random  # noqa: E402
+import re  # noqa: E402
 import shutil  # noqa: E402
 import tempfile  # noqa: E402
 import time  # noqa: E402
@@ -67,9 +69,11 @@ DEVIATIONS = {
 PROBE_RULES = ("ProbeBoundedByRecords", "ProbeClampedToRecords")
 
 MC_TEMPLATE = """---- MODULE RandomGen_MC ----
-EXTENDS RandomGen
+EXTENDS RandomGen, Json
 ScenariosDef == {%s}
 DefProbeDef == %s
+(* PrintDone of RandomGen, serialised as JSON (one line per complete history) *)
+PrintJson == Done => PrintT(<<"histj", ToJson([sc |-> sc, hist |-> hist])>>)
 ====
 """
 WIN_MC = """---- MODULE RandomWindow_MC ----
@@ -97,21 +101,22 @@ def tla_set(xs) -> str:
     return "{" + ", ".join(str(x) if not isinstance(x, str) else f'"{x}"' for x in xs) + "}"
 
 
-def gen_constants(scenarios, *, dev, ops, max_ops, call_sizes, probe_sizes, seeds=(1, 2)):
+def gen_constants(scenarios, *, dev, ops, max_ops, call_sizes, probe_sizes, frame_sizes=(3,), seeds=(1, 2)):
     ks = sorted({s["k"] for s in scenarios if s["k"] > 0} | {1})
     defprobe = "(" + " @@ ".join(f"{k} :> {def_probe(k)}" for k in ks) + ")"
     mod = MC_TEMPLATE % (", ".join(sc_tla(s) for s in scenarios), defprobe)
-    consts = dict(Scenarios="<- ScenariosDef", DefProbe="<- DefProbeDef", Seeds=tla_set(seeds), CallSizes=tla_set(call_sizes),
+    consts = dict(Scenarios="<- ScenariosDef", DefProbe="<- DefProbeDef", Seeds=tla_set(seeds), CallSizes=tla_set(call_sizes), FrameSizes=tla_set(frame_sizes),
                   ProbeSizes=tla_set(probe_sizes), Ops=tla_set(ops), MaxOps=max_ops, DefaultChunk=DEFAULT_CHUNK,
                   Deviations=tla_set(sorted(dev)))
     return mod, consts
 
 
-def gen_job(label, scenarios, *, dev=(), ops=ALL_OPS, max_ops, call_sizes=(0, 3), probe_sizes=(2, 7),
+def gen_job(label, scenarios, *, dev=(), ops=ALL_OPS, max_ops, call_sizes=(0, 3), probe_sizes=(2, 7), frame_sizes=(3,),
             invariants=IDEAL_INVS, print_hist=False, liveness=True, coverage=False) -> dict:
     """A TLC run of RandomGen, described; executed by run_jobs (several at a time)."""
-    mod, consts = gen_constants(scenarios, dev=dev, ops=ops, max_ops=max_ops, call_sizes=call_sizes, probe_sizes=probe_sizes)
-    cfg = tlc.make_cfg(constants=consts, invariants=list(invariants) + (["PrintDone"] if print_hist else []),
+    mod, consts = gen_constants(scenarios, dev=dev, ops=ops, max_ops=max_ops, call_sizes=call_sizes, probe_sizes=probe_sizes,
+                                frame_sizes=frame_sizes)
+    cfg = tlc.make_cfg(constants=consts, invariants=list(invariants) + (["PrintJson"] if print_hist else []),
                        properties=["Termination"] if liveness else [], deadlock=True)
     return dict(label=label, cfg=cfg, mod=mod, coverage=coverage,
                 info=dict(scenarios=len(scenarios), MaxOps=max_ops, Deviations=sorted(dev), Ops=list(ops)))
@@ -148,10 +153,26 @@ class Node:
         self.children: dict = {}
 
 
+def norm_tok(t) -> tuple:
+    return (t[0], t[1], t[2], tuple(t[3]), t[4])
+
+
+def norm_entry(e: dict) -> dict:
+    return dict(op=e["op"], a=e["a"], out=e["out"], pr=tuple(norm_tok(t) for t in e["pr"]),
+                res=tuple(norm_tok(t) for t in e["res"]), ev=tuple(tuple(x) for x in e["ev"]))
+
+
+_RE_HISTJ = re.compile(r'^<<"histj", "(.*)">>$', re.M)
+
+
 def printed_hist(res) -> list:
-    """PrintT(<<"hist", sc, hist>>) values of a TLC run, parsed once."""
+    """[(sc, hist)] printed by PrintJson of a TLC run, parsed once."""
     if getattr(res, "_c16_hist", None) is None:
-        res._c16_hist = res.printed("hist")
+        out = []
+        for line in _RE_HISTJ.findall(res.out):
+            doc = json.loads(json.loads('"' + line + '"'))
+            out.append((doc["sc"], [norm_entry(e) for e in doc["hist"]]))
+        res._c16_hist = out
     return res._c16_hist
 
 
@@ -366,6 +387,14 @@ class World:
                     return "attribute_not_from_source"
         return None
 
+    def key_class(self, bad: str) -> str:
+        """Coarse input class for the structural key of a footprint / attribute finding."""
+        if bad.startswith("outside_window") or bad.startswith("area"):
+            return coarse_window_class(self.window, bad)
+        if bad.startswith("outside") or bad.startswith("non_finite"):
+            return self.wclass or "any"
+        return f"attrs={self.attrs}"
+
     def points_bad(self, arr) -> str | None:
         names = arr.dtype.names
         return self.footprint_bad(arr["ra"], arr["dec"]) or self.attrs_bad(names, lambda n: arr[n])
@@ -485,8 +514,7 @@ def exec_entry(world: World, st: State, e: dict, sc: dict, F: Findings, path_ops
             ok = False
         bad = world.points_bad(arr)
         if bad:
-            cl = world.wclass if bad.startswith("outside") else f"attrs={world.attrs}"
-            F.violation(f"C16|{ep}|{cl}|{bad}", dict(base_detail, n=len(arr)))
+            F.violation(f"C16|{ep}|{world.key_class(bad)}|{bad}", dict(base_detail, n=len(arr)))
         if tok is not None and world.realisable(tok) and len(arr) == tok[4]:
             if not same(arr, world.realise(tok)):
                 F.violation(f"C16|{ep}|{hist_cls}|not_reproducible",
@@ -669,8 +697,7 @@ def exec_entry(world: World, st: State, e: dict, sc: dict, F: Findings, path_ops
             if len(recs):
                 bad = world.points_bad(recs)
                 if bad:
-                    cl = world.wclass if bad.startswith("outside") else f"attrs={world.attrs}"
-                    F.violation(f"C16|{ep}|{cl}|{bad}", dict(base_detail))
+                    F.violation(f"C16|{ep}|{world.key_class(bad)}|{bad}", dict(base_detail))
             toks = list(e["res"])
             calls = [x for x in log if x[0] == "call"]
             exp_toks = list(e["pr"]) + toks
@@ -730,7 +757,12 @@ def op_text(e: dict, sc: dict) -> str:
     return f"from_random(N={sc['N']},chunksize={sc['C'] or None},patch_num={sc['k'] or None},probe_size={sc['p'] or 'default'})"
 
 
-def walk(ctx, world: World, sc: dict, node: Node, st: State, path_ops: list, counters: dict, budget: dict) -> None:
+def compact(e: dict) -> dict:
+    return dict(op=e["op"], a=e["a"], out=e["out"], pr=[list(t[:3]) + [list(t[3]), t[4]] for t in e["pr"]],
+                res=[list(t[:3]) + [list(t[3]), t[4]] for t in e["res"]], ev=[list(x) for x in e["ev"]])
+
+
+def walk(ctx, world: World, sc: dict, node: Node, st: State, path_ops: list, path_entries: list, counters: dict, budget: dict) -> None:
     for child in node.children.values():
         if budget["deadline"] and time.time() > budget["deadline"]:
             budget["cut"] = True
@@ -738,7 +770,10 @@ def walk(ctx, world: World, sc: dict, node: Node, st: State, path_ops: list, cou
         st2 = copy.deepcopy(st)
         F = Findings()
         ops2 = path_ops + [op_text(child.entry, sc)]
+        ents2 = path_entries + [child.entry]
         ok = exec_entry(world, st2, child.entry, sc, F, ops2, counters)
+        for it in F.items:  # recipe for ./check C16 --replay
+            it[2]["replay"] = dict(world=world.idx, scenario=sc, entries=[compact(e) for e in ents2])
         F.flush(ctx)
         nontrivial = child.entry["op"] in ("pass", "from_random", "probe") and len(path_ops) > 0
         ctx.evaluated(1, (world.idx, sc_key(sc), tuple(ops2)) if nontrivial else None)
@@ -746,9 +781,32 @@ def walk(ctx, world: World, sc: dict, node: Node, st: State, path_ops: list, cou
             ctx.validated(1)
             counters["histories"] = counters.get("histories", 0) + 1
         if ok:
-            walk(ctx, world, sc, child, st2, ops2, counters, budget)
+            walk(ctx, world, sc, child, st2, ops2, ents2, counters, budget)
         else:
             counters["diverged"] = counters.get("diverged", 0) + 1
+
+
+def replay_file(ctx, yaw, root: Path) -> None:
+    """./check C16 --replay <file>: re-execute the recorded history on the current tree."""
+    doc = json.loads(Path(ctx.replay).read_text())
+    recipe = doc.get("detail", {}).get("replay")
+    ctx.require(recipe is not None, "this finding carries no replay recipe (window / trace / pool findings: re-run the tier)")
+    worlds = make_worlds(yaw, root, int(doc.get("seed", 0)))
+    world = [w for ws in worlds.values() for w in ws if w.idx == recipe["world"]][0]
+    sc = recipe["scenario"]
+    st = State(world.new_gen(world.seedmap[1]))
+    ops: list = []
+    for e in recipe["entries"]:
+        e = norm_entry(e)
+        ops.append(op_text(e, sc))
+        F = Findings()
+        ok = exec_entry(world, st, e, sc, F, list(ops), {})
+        F.flush(ctx)
+        ctx.evaluated(1)
+        if not ok:
+            break
+    ctx.validated(1)
+    ctx.sample(dict(replayed=ops, world=world.describe(), scenario=sc))
 
 
 # ---------------------------------------------------------------------------
@@ -783,15 +841,18 @@ def make_worlds(yaw, root: Path, seed: int) -> dict:
 # ---------------------------------------------------------------------------
 
 
-def history_scenarios(quick: bool) -> list:
-    sc = [dict(kind="box", N=5, C=2, k=0, p=0),      # N = 2C+1
-          dict(kind="box", N=12, C=6, k=1, p=10)]    # patch_num with a user probe, N = 2C
-    if not quick:
-        sc += [dict(kind="box", N=4, C=2, k=0, p=0),     # N = 2C
-               dict(kind="box", N=2, C=3, k=0, p=0),     # N < C
-               dict(kind="box", N=12, C=0, k=2, p=0),    # default chunksize, library default probe
-               dict(kind="box", N=20, C=7, k=2, p=20)]
-    return sc
+def history_plan(quick: bool) -> list:
+    """[(scenarios, MaxOps)]: all histories of <= MaxOps public operations are enumerated."""
+    a = dict(kind="box", N=5, C=2, k=0, p=0)       # N = 2C+1, patch centres given
+    b = dict(kind="box", N=12, C=6, k=1, p=10)     # N = 2C, patch_num with a user probe
+    c = dict(kind="box", N=4, C=2, k=0, p=0)       # N = 2C
+    if quick:
+        return [([a], 4), ([b, c], 3)]
+    return [([a], 5),
+            ([b, c,
+              dict(kind="box", N=2, C=3, k=0, p=0),      # N < C
+              dict(kind="box", N=12, C=0, k=2, p=0),     # default chunksize, library default probe
+              dict(kind="box", N=20, C=7, k=2, p=20)], 4)]
 
 
 def size_scenarios(quick: bool) -> list:
@@ -830,56 +891,61 @@ def detect_probe_rule(yaw) -> tuple:
 
 def model_check(ctx, observed: tuple) -> dict:
     quick = ctx.quick
-    depth = 4 if quick else 5
-    hsc = history_scenarios(quick)
+    plan = history_plan(quick)
     ssc = size_scenarios(quick)
     size_ops = ("from_random", "reader", "iter", "probe")
     invs_obs = [i for i in IDEAL_INVS if i != "CreateNeverRejected"] if observed else IDEAL_INVS
-    hp_sc = [dict(kind="healpix", N=5, C=2, k=0, p=0), dict(kind="healpix", N=12, C=5, k=1, p=10)]
-    jobs = [
-        # 1. the ideal design over all histories / over the size sweep
-        gen_job(f"RandomGen ideal, all histories of <= {depth} operations", hsc, max_ops=depth, coverage=True, print_hist=not observed),
-        gen_job("RandomGen ideal, size sweep (N x chunksize x patch_num x probe_size)", ssc, max_ops=2, ops=size_ops,
-                probe_sizes=(3, 10), print_hist=not observed),
-        # healpix scenarios (replayed on the real HealPixRandoms)
-        gen_job("RandomGen, healpix scenarios (ideal generator)", hp_sc, dev=observed, max_ops=3 if quick else 4, print_hist=True,
-                invariants=invs_obs),
-        gen_job("RandomGen variant ProbeClampedToRecords (admissible alternative)", [DEVIATIONS["ProbeBoundedByRecords"][0]],
-                dev=("ProbeClampedToRecords",), max_ops=2, liveness=False),
-    ]
+    fs = (3,) if quick else (0, 3)
+    hp_plan = [([dict(kind="healpix", N=5, C=2, k=0, p=0)], 3 if quick else 4), ([dict(kind="healpix", N=12, C=5, k=1, p=10)], 2 if quick else 3)]
+    jobs, roles = [], []
+
+    def add(role, job):
+        roles.append(role)
+        jobs.append(job)
+
+    # 1. the ideal design over all histories / over the size sweep
+    for i, (hsc, depth) in enumerate(plan):
+        add(("ideal_hist", i), gen_job(f"RandomGen ideal, all histories of <= {depth} operations, {len(hsc)} scenario(s)", hsc,
+                                       max_ops=depth, coverage=True, print_hist=not observed, frame_sizes=fs))
+    add(("ideal_size", 0), gen_job("RandomGen ideal, size sweep (N x chunksize x patch_num x probe_size)", ssc, max_ops=2, ops=size_ops,
+                                   probe_sizes=(3, 10), print_hist=not observed))
+    # healpix scenarios (replayed on the real HealPixRandoms)
+    for i, (hsc, depth) in enumerate(hp_plan):
+        add(("healpix", i), gen_job(f"RandomGen, healpix scenario {i} (ideal generator), <= {depth} operations", hsc, dev=observed,
+                                    max_ops=depth, print_hist=True, invariants=invs_obs))
+    add(("clamped", 0), gen_job("RandomGen variant ProbeClampedToRecords (admissible alternative)", [DEVIATIONS["ProbeBoundedByRecords"][0]],
+                                dev=("ProbeClampedToRecords",), max_ops=2, liveness=False))
     if observed:
         # 2. the design variant the tree implements for probes larger than the catalog
-        jobs += [
-            gen_job(f"RandomGen with {'+'.join(observed)} (as implemented), histories", hsc, dev=observed, max_ops=depth,
-                    invariants=invs_obs, print_hist=True),
-            gen_job(f"RandomGen with {'+'.join(observed)} (as implemented), size sweep", ssc, dev=observed, max_ops=2, ops=size_ops,
-                    probe_sizes=(3, 10), invariants=invs_obs, print_hist=True),
-        ]
+        for i, (hsc, depth) in enumerate(plan):
+            add(("obs_hist", i), gen_job(f"RandomGen with {'+'.join(observed)} (as implemented), histories <= {depth} operations", hsc,
+                                         dev=observed, max_ops=depth, invariants=invs_obs, print_hist=True, frame_sizes=fs))
+        add(("obs_size", 0), gen_job(f"RandomGen with {'+'.join(observed)} (as implemented), size sweep", ssc, dev=observed, max_ops=2,
+                                     ops=size_ops, probe_sizes=(3, 10), invariants=invs_obs, print_hist=True))
     # 3. every deviation yields its counterexample
     for name, (sc, ops, expect) in DEVIATIONS.items():
-        jobs.append(gen_job(f"RandomGen deviation {name}", [sc], dev=(name,), ops=ops, max_ops=3, liveness=False))
-    results = run_jobs(ctx, jobs)
-    ideal_hist, ideal_size, healpix, clamped = results[:4]
-    ctx.require(ideal_hist.ok, f"RandomGen ideal design violated in TLC: {ideal_hist.error_kind} {ideal_hist.error_name}")
+        add(("dev", name), gen_job(f"RandomGen deviation {name}", [sc], dev=(name,), ops=ops, max_ops=3, liveness=False,
+                                   call_sizes=(2, 3)))
+    results = dict(zip(roles, run_jobs(ctx, jobs)))
+    cover: dict = {}
+    for (role, i), res in results.items():
+        if role in ("ideal_hist", "ideal_size", "healpix", "clamped", "obs_hist", "obs_size"):
+            ctx.require(res.ok, f"RandomGen ({role} {i}) violated in TLC: {res.error_kind} {res.error_name}")
+        if role == "ideal_hist":
+            for act, (_, total) in res.coverage.items():
+                cover[act] = cover.get(act, 0) + total
     for act in ("DrawOp", "Reseed", "NewReader", "Probe", "IterStart", "NextChunk", "StopPass", "Abandon", "FRStart",
                 "FRCenters", "FRIterStep", "FRNext", "FRStop"):
-        ctx.require(ideal_hist.coverage.get(act, (0, 0))[1] > 0, f"RandomGen action {act} never taken (vacuous)")
-    ctx.require(ideal_size.ok, f"RandomGen ideal design violated on the size sweep: {ideal_size.error_kind} {ideal_size.error_name}")
-    ctx.require(healpix.ok, f"RandomGen healpix scenarios violated: {healpix.error_name}")
-    ctx.require(clamped.ok, "alternative design ProbeClampedToRecords violates an invariant")
-    hist_res, size_res = ideal_hist, ideal_size
-    k = 4
-    if observed:
-        hist_res, size_res = results[4:6]
-        k = 6
-        ctx.require(hist_res.ok, f"as-implemented variant violates {hist_res.error_name} (only CreateNeverRejected may fail)")
-        ctx.require(size_res.ok, f"as-implemented variant violates {size_res.error_name} on the size sweep")
+        ctx.require(cover.get(act, 0) > 0, f"RandomGen action {act} never taken (vacuous)")
+    pick = "obs" if observed else "ideal"
     cex = {}
-    for (name, (sc, ops, expect)), res in zip(DEVIATIONS.items(), results[k:]):
+    for name, (sc, ops, expect) in DEVIATIONS.items():
+        res = results[("dev", name)]
         ctx.require(not res.ok and res.error_kind == "invariant" and res.error_name in expect,
                     f"deviation {name} yields no counterexample (stale model): {res.error_kind} {res.error_name}")
         cex[name] = dict(scenario=sc, invariant=res.error_name, hist=res.trace[-1]["state"]["hist"])
-    return dict(hist=hist_res, size=size_res, cex=cex, healpix=healpix)
+    return dict(hist=[results[(f"{pick}_hist", i)] for i in range(len(plan))], size=results[(f"{pick}_size", 0)], cex=cex,
+                healpix=[results[("healpix", i)] for i in range(len(hp_plan))])
 
 
 # ---------------------------------------------------------------------------
@@ -889,11 +955,7 @@ def model_check(ctx, observed: tuple) -> dict:
 
 def py_hist(hist) -> list:
     """counterexample JSON state -> entries shaped like printed ones"""
-    out = []
-    for e in hist:
-        out.append(dict(op=e["op"], a=e["a"], out=e["out"], pr=[tuple([t[0], t[1], t[2], tuple(t[3]), t[4]]) for t in e["pr"]],
-                        res=[tuple([t[0], t[1], t[2], tuple(t[3]), t[4]]) for t in e["res"]], ev=[tuple(x) for x in e["ev"]]))
-    return out
+    return [norm_entry(e) for e in hist]
 
 
 def ideal_tokens(e: dict, sc: dict) -> dict:
@@ -937,44 +999,66 @@ def replay_counterexamples(ctx, worlds, cex) -> dict:
     return shown
 
 
-def replay_histories(ctx, worlds, res, label, *, world_pick, deadline=None) -> dict:
-    tries = build_tries(printed_hist(res))
-    ctx.require(bool(tries), f"TLC printed no history for {label}")
+def replay_histories(ctx, worlds, results, label, *, world_pick, deadline=None) -> dict:
+    """Walk the history trees printed by the TLC runs ``results`` on the real code."""
+    if not isinstance(results, (list, tuple)):
+        results = [results]
     counters: dict = {}
     budget = dict(deadline=deadline, cut=False)
-    for i, (key, (sc, root)) in enumerate(sorted(tries.items())):
-        for world in world_pick(i, sc):
-            st = State(world.new_gen(world.seedmap[1]))
-            walk(ctx, world, sc, root, st, [], counters, budget)
-    counters["scenarios"] = len(tries)
-    counters["tree_nodes"] = sum(count_nodes(r) for _, r in tries.values())
+    nsc = 0
+    for res in results:
+        tries = build_tries(printed_hist(res))
+        ctx.require(bool(tries), f"TLC printed no history for {label}")
+        for key, (sc, root) in sorted(tries.items()):
+            for world in world_pick(nsc, sc):
+                st = State(world.new_gen(world.seedmap[1]))
+                walk(ctx, world, sc, root, st, [], [], counters, budget)
+            nsc += 1
+            counters["tree_nodes"] = counters.get("tree_nodes", 0) + count_nodes(root)
+    counters["scenarios"] = nsc
     counters["cut_by_time_budget"] = budget["cut"]
     ctx.extra.setdefault("replays", {})[label] = counters
     return counters
 
 
-def binding_selfcheck(ctx, worlds, res) -> None:
-    """A deliberately corrupted expectation must be rejected by the driver."""
+def binding_selfcheck(ctx, worlds, results) -> None:
+    """A deliberately corrupted expectation must be rejected by the driver.  The demonstration
+    uses the first TLC history whose UNCORRUPTED replay is clean (if the library under test is
+    broken for every candidate, there is nothing to demonstrate on - recorded, not an error)."""
     world = worlds["box"][0]
-    done = {}
-    for sc, hist in printed_hist(res):
-        for e in hist:
-            if e["op"] == "from_random" and e["out"] == "ok" and len(e["res"]) >= 2 and "tok" not in done:
-                bad = dict(e)
-                t = e["res"][1]
-                bad["res"] = (e["res"][0], (t[0], t[1], t[2], (t[3][0] + 1,), t[4])) + tuple(e["res"][2:])
-                F = Findings()
-                exec_entry(world, State(world.new_gen(world.seedmap[1])), bad, dict(sc), F, ["corrupted token"], {})
-                done["tok"] = any(k.endswith("not_reproducible") for _, k, _ in F.items)
-                bad = dict(e)
-                t = e["res"][-1]
-                bad["res"] = tuple(e["res"][:-1]) + ((t[0], t[1], t[2], t[3], t[4] + 1),)
-                bad["ev"] = tuple(e["ev"][:-1]) + (("call", t[4] + 1),)
-                F = Findings()
-                ok = exec_entry(world, State(world.new_gen(world.seedmap[1])), bad, dict(sc), F, ["corrupted size"], {})
-                done["size"] = (not ok) and any("events_differ" in k or "chunking_differs" in k for _, k, _ in F.items)
-        if len(done) == 2:
-            break
+
+    def replay(entries, sc):
+        st = State(world.new_gen(world.seedmap[1]))
+        F = Findings()
+        ok = True
+        for e in entries:
+            ok = exec_entry(world, st, e, sc, F, ["binding demonstration"], {}) and ok
+        return ok, F
+
+    done: dict = {}
+    tried = 0
+    for sc, hist in [x for r in results for x in printed_hist(r)]:
+        for i, e in enumerate(hist):
+            if not (e["op"] in ("from_random", "pass") and e["out"] in ("ok", "complete") and len(e["res"]) >= 2):
+                continue
+            if tried >= 40 or len(done) == 2:
+                break
+            tried += 1
+            ok, F = replay(hist[: i + 1], sc)
+            if not ok or F.items:
+                continue  # not a clean baseline
+            t = e["res"][1]
+            bad = dict(e, res=(e["res"][0], (t[0], t[1], t[2], (t[3][0] + 1,), t[4])) + tuple(e["res"][2:]))
+            _, F = replay(hist[:i] + [bad], sc)
+            done["tok"] = any(kind == "violation" and k.endswith("not_reproducible") for kind, k, _ in F.items)
+            t = e["res"][-1]
+            bad = dict(e, res=tuple(e["res"][:-1]) + ((t[0], t[1], t[2], t[3], t[4] + 1),),
+                       ev=tuple(e["ev"][:-1]) + (("call", t[4] + 1),))
+            ok, F = replay(hist[:i] + [bad], sc)
+            done["size"] = (not ok) and bool(F.items)
+    if not done:
+        ctx.extra["binding_demonstration"] = dict(skipped="no multi-chunk operation replays cleanly on this tree", candidates=tried)
+        return
     ctx.require(done.get("tok") is True, "binding demonstration failed: a corrupted token was accepted by the driver")
     ctx.require(done.get("size") is True, "binding demonstration failed: a corrupted chunk size was accepted by the driver")
     ctx.extra["binding_demonstration"] = dict(corrupted_token_rejected=True, corrupted_chunk_size_rejected=True)
@@ -1031,7 +1115,7 @@ def window_check(ctx, yaw, seed: int) -> None:
                 ctx.violation("C16|BoxRandoms.__call__|direct|size_" + ("short" if len(pts) < M else "long"),
                               dict(window_deg=w, requested=M, got=len(pts)))
             if bad:
-                ctx.violation(f"C16|BoxRandoms.__call__|{window_class(w)}|{bad}", dict(window_deg=w, seed=gen_seed, n=M))
+                ctx.violation(f"C16|BoxRandoms.__call__|{wd.key_class(bad)}|{bad}", dict(window_deg=w, seed=gen_seed, n=M))
         for (c, num, den) in cells:
             f = num / den
             inside = (ra >= c[0]) & (ra < c[1]) & (dec >= c[2]) & (dec < c[3])
@@ -1051,8 +1135,8 @@ def window_check(ctx, yaw, seed: int) -> None:
         ctx.evaluated(1, ("window", tuple(sorted(win.items()))))
         if fails:
             w = (win["ra1"], win["ra2"], win["d1"], win["d2"])
-            ctx.violation(f"C16|BoxRandoms.__call__|{window_class(w)}|area_fraction_off_by_more_than_6_sigma",
-                          dict(window_deg=w, seed=1000 * seed + i, failing_cells=fails[:4]))
+            ctx.violation(f"C16|BoxRandoms.__call__|{coarse_window_class(w, 'area')}|area_fraction_off_by_more_than_6_sigma",
+                          dict(window_deg=w, window_class=window_class(w), seed=1000 * seed + i, failing_cells=fails[:4]))
         if i == 0:
             ctx.sample(dict(window_deg=win, cells=[dict(cell=list(c), fraction=[n, d]) for c, n, d in sorted(cells)][:4],
                             points=M, compared="empirical cell fractions vs TLC's exact rationals (6 sigma), all points inside"))
@@ -1063,13 +1147,20 @@ def window_check(ctx, yaw, seed: int) -> None:
     wrong_fails = test_window(cex_win, sorted(cells[0]), 77 + seed, selfcheck_law="dec")
     ctx.require(bool(wrong_fails), "binding demonstration failed: a uniform-in-dec sampler passes the area test")
     if real_fails:
-        ctx.violation(f"C16|BoxRandoms.__call__|{window_class((cex_win['ra1'], cex_win['ra2'], cex_win['d1'], cex_win['d2']))}"
+        ctx.violation(f"C16|BoxRandoms.__call__|{coarse_window_class((cex_win['ra1'], cex_win['ra2'], cex_win['d1'], cex_win['d2']), 'area')}"
                       "|area_fraction_off_by_more_than_6_sigma", dict(window_deg=cex_win, failing_cells=real_fails[:4]))
     ctx.validated(len(windows) + 1)
     ctx.extra["area_law"] = dict(windows=len(windows), cells=ncells, points_per_window=M, threshold_sigma=nsig,
                                  worst_deviation_sigma=round(worst, 2), deviation_UniformInDec=dict(
                                      tlc_counterexample_window=cex_win, real_code_shows=bool(real_fails),
                                      wrong_sampler_rejected=bool(wrong_fails)))
+
+
+def coarse_window_class(w, bad: str) -> str:
+    r1, r2, d1, d2 = w
+    if bad.endswith("_ra"):
+        return "ra_outside_0_360" if (r1 < 0 or r2 > 360) else "ra_in_0_360"
+    return "window_touches_pole" if (d2 >= 90 or d1 <= -90) else "window_without_pole"
 
 
 def window_class(w) -> str:
@@ -1223,7 +1314,7 @@ def validate_traces(ctx, traces, observed, label) -> list:
                 ops = [dict(op=o["op"], a=o["a"], out=o["out"], prn=o["prn"], resn=o["resn"], ev=o["ev"]) for o in t["ops"]]
                 f.write(json.dumps(dict(sc=t["sc"], nops=t["nops"], ops=ops)) + "\n")
         invs = [i for i in IDEAL_INVS if i not in ("TypeOK",) and not (observed and i == "CreateNeverRejected")]
-        consts = dict(Scenarios="{}", DefProbe="<- DefProbeDef", Seeds="{1, 2}", CallSizes=tla_set(sizes), ProbeSizes=tla_set(psizes),
+        consts = dict(Scenarios="{}", DefProbe="<- DefProbeDef", Seeds="{1, 2}", CallSizes=tla_set(sizes), FrameSizes=tla_set(sizes), ProbeSizes=tla_set(psizes),
                       Ops=tla_set(ALL_OPS), MaxOps=1000, DefaultChunk=DEFAULT_CHUNK, Deviations=tla_set(sorted(observed)))
         cfg = tlc.make_cfg(spec="TSpec", constants=consts, invariants=["Progress"] + invs, constraints=["Consistent"],
                            postcondition="Post", deadlock=False)
@@ -1237,8 +1328,9 @@ def validate_traces(ctx, traces, observed, label) -> list:
     v = verdicts[-1]
     seq = [v[k] for k in sorted(v)] if isinstance(v, dict) else list(v)
     hists = {}
-    for tid, hist in res.printed("accepted"):
-        hists[tid] = hist
+    for line in re.findall(r'^<<"acceptedj", "(.*)">>$', res.out, re.M):
+        doc = json.loads(json.loads('"' + line + '"'))
+        hists[doc["tid"]] = [norm_entry(e) for e in doc["hist"]]
     out = []
     for i, item in enumerate(seq):
         out.append((item[1] is True, int(item[0]), hists.get(i + 1)))
@@ -1280,8 +1372,7 @@ def trace_validation(ctx, worlds, rng, observed) -> None:
             for arr in arrs:
                 badp = world.points_bad(arr)
                 if badp:
-                    ctx.violation(f"C16|{ep}|{world.wclass if badp.startswith('outside') else 'attrs=' + world.attrs}|{badp}",
-                                  dict(world=world.describe(), scenario=sc))
+                    ctx.violation(f"C16|{ep}|{world.key_class(badp)}|{badp}", dict(world=world.describe(), scenario=sc))
             total = sum(o["resn"])
             if o["op"] == "from_random" and o["out"] == "ok" and (total != sc["N"] or o.get("nrec") != sc["N"]):
                 ctx.violation(f"C16|{ep}|{'patch_num' if sc['k'] else 'patch_centers'},{size_class(sc['N'], sc['C'])}|size_"
@@ -1370,6 +1461,10 @@ def run(ctx) -> None:
     t0 = time.time()
     yaw = data.import_yaw()
     from yaw import randoms
+    from yaw.utils import parallel as yaw_parallel
+
+    # the library runs `lscpu` in a subprocess on every get_size() call (several per catalog): cache the answer
+    yaw_parallel._get_physical_cores = functools.lru_cache(maxsize=None)(yaw_parallel._get_physical_cores)
 
     ctx.require(randoms.HEALPY_ENABLED, "healpy stand-in was not installed before yaw was imported")
     ctx.require(fakehealpy.selftest() == [], f"healpy stand-in fails its defining properties: {fakehealpy.selftest()}")
@@ -1391,6 +1486,11 @@ def run(ctx) -> None:
                                 "RandomWindow grid within 6 sigma (1e5/1e6 points per window); fine-scale uniformity, independence "
                                 "of points and the uniformity of the attribute-row draw are NOT decided")
 
+    if ctx.replay:
+        with scratch("c16r_") as root:
+            replay_file(ctx, yaw, root)
+        return
+
     observed = detect_probe_rule(yaw)
     ctx.extra["probe_rule_of_the_tree"] = list(observed) or ["unbounded (ideal)"]
     mc = model_check(ctx, observed)
@@ -1402,23 +1502,25 @@ def run(ctx) -> None:
         binding_selfcheck(ctx, worlds, mc["hist"])
 
         nbox = len(worlds["box"])
-        # size sweep: every scenario on one generator configuration (rotating), all of them for a few
+        # size sweep: every scenario on one generator configuration (rotating), more of them in the thorough tier
         per = 1 if quick else 3
         c1 = replay_histories(ctx, worlds, mc["size"], "size sweep",
                               world_pick=lambda i, sc: [worlds["box"][(i * 5 + j * 7) % (8 if sc["k"] else nbox)] for j in range(per)])
         ctx.sample(dict(kind="size sweep", scenarios=c1["scenarios"], histories=c1.get("histories"),
                         example="from_random(N=12, chunksize=4) ; from_random again ; RandomReader pass: each 12 records in chunks 4,4,4"))
         # histories: full depth on rotating configurations
-        deadline = t0 + (85 if quick else 900)
+        deadline = t0 + (100 if quick else 1500)
         per = 1 if quick else 2
         c2 = replay_histories(ctx, worlds, mc["hist"], "histories", deadline=deadline,
                               world_pick=lambda i, sc: [worlds["box"][(i * 3 + j * 5 + ctx.seed) % (8 if sc["k"] else nbox)] for j in range(per)])
-        for sc, hist in printed_hist(mc["hist"])[:: max(1, len(printed_hist(mc["hist"])) // 3)][:3]:
+        allh = [x for r in mc["hist"] for x in printed_hist(r)]
+        for sc, hist in allh[:: max(1, len(allh) // 3)][:3]:
             ctx.sample(dict(scenario=sc, history=[op_text(e, sc) for e in hist],
-                            expected_tokens=[[list(t) for t in e["res"]] for e in hist][-1]))
+                            expected_tokens_of_last_operation=[list(t[:3]) + [list(t[3]), t[4]] for t in hist[-1]["res"]]))
         c3 = replay_histories(ctx, worlds, mc["healpix"], "healpix histories",
-                              world_pick=lambda i, sc: worlds["healpix"][: (2 if quick else 3)])
-        ctx.require(c2.get("histories", 0) > 100 and c1.get("histories", 0) > 100, "too few histories replayed")
+                              world_pick=lambda i, sc: worlds["healpix"][: (1 if sc["k"] else 2) if quick else 3])
+        ctx.require(c2.get("histories", 0) > 100 and c1.get("histories", 0) > 100 and c3.get("histories", 0) > 20,
+                    "too few histories replayed")
         ctx.extra["worlds"] = [w.describe() for w in worlds["box"][:3]] + [worlds["healpix"][0].describe()]
 
         window_check(ctx, yaw, ctx.seed)
